@@ -279,7 +279,7 @@ def run(repo: Repo, rep: Report, tier: str) -> None:
     inl = repo.func("ExpressionLowerer.lower_function_call_inline")
     ci = canon(inl)
     n9 = 0
-    for tbl in ("signal_refs", "entity_refs"):
+    for tbl in ("signal_refs", "entity_refs", "memory_refs", "memory_types"):
         stores = [n for n in walk_local(inl.node) if isinstance(n, ast.Assign) and norm(n.targets[0]) == f"self.parent.{tbl}"]
         if not stores:
             n9 += 1
@@ -292,7 +292,7 @@ def run(repo: Repo, rep: Report, tier: str) -> None:
             ok9 = all(a in snap for a in alts)
             rep.check(ok9, "C15-R9", f"lower_function_call_inline restores {tbl} from a snapshot", alts[0][:80] if ok9 else
                       f"restored from `{alts[0][:100]}`: built from the table as the body left it, so a caller's name the body re-declared keeps the body's value", inl.loc(st))
-    rep.floor("C15-R9", "restore stores", n9, 2)
+    rep.floor("C15-R9", "restore stores", n9, 4)
 
     # ---------------- R10 --------------------------------------------------------------
     rep.rule("C15-R10", "a value that can still be read under a name is never retyped in place: before _try_fold_projection_into_source rewrites the producer's output type it scans "
